@@ -174,7 +174,12 @@ pub fn lazy_cases(rng: &mut Rng, thorough: bool) -> Vec<RsCase> {
     for n in [10usize, 33, 40, 70] {
         for (o1, o2) in [("and", "and"), ("or", "or"), ("and", "or"), ("or", "and"), ("add", "add"), ("eq", "and")] {
             for special_at in [0usize, 1, n / 2, n - 2, n - 1] {
-                for (fill, special) in [(0usize, 1usize), (1, 0), (0, 4), (1, 4), (0, 6), (1, 5), (0, 9), (0, 7)] {
+                // (fill 3 = a call returning its Int argument: the chain's applications succeed up to the special operand, where an
+                //  application — not an operand — fails: a Bool / None literal under `+`)
+                for (fill, special) in [(0usize, 1usize), (1, 0), (0, 4), (1, 4), (0, 6), (1, 5), (0, 9), (0, 7), (3, 5), (3, 8), (3, 4), (3, 7), (3, 0)] {
+                    if fill == 3 && !(o1 == "add" && o2 == "add") {
+                        continue;
+                    }
                     let mut acc = Shape::Leaf(if special_at == 0 { special } else { fill });
                     for i in 1..n {
                         let leaf = Shape::Leaf(if i == special_at { special } else { fill });
